@@ -273,3 +273,5 @@ def gen_config(repo, out):
 
 
 EXTRA_GENERATORS.append(gen_config)
+
+import t1_calls  # noqa: F401,E402  (structural call orders)
